@@ -683,13 +683,29 @@ fn test_components() {
     assert_eq!(set.get_components().len(), 2);
 }
 
-/// 散列化「无序不重复词项容器」
-/// * ⚠️潜在假设：集合相同⇒遍历顺序相同⇒散列化顺序相同⇒散列化结果相同
-fn hash_term_set<H: std::hash::Hasher>(set: &TermSetType, state: &mut H) {
-    // 逐个元素散列化
-    for term in set {
-        term.hash(state)
+/// 以「与顺序无关」的方式散列化一组词项
+/// * 🚩各元素先用固定的[`DefaultHasher`]独立散列，再以可交换的`wrapping_add`合并
+///   * 📌保证「判等相同 ⇒ 散列相同」：集合的遍历顺序、对称陈述的主谓词顺序均不影响结果
+fn hash_terms_unordered<'a, H: std::hash::Hasher>(
+    terms: impl Iterator<Item = &'a Term>,
+    state: &mut H,
+) {
+    use std::hash::Hasher;
+    let (mut sum, mut len) = (0_u64, 0_usize);
+    for term in terms {
+        let mut hasher = std::collections::hash_map::DefaultHasher::new();
+        term.hash(&mut hasher);
+        sum = sum.wrapping_add(hasher.finish());
+        len += 1;
     }
+    state.write_usize(len);
+    state.write_u64(sum);
+}
+
+/// 散列化「无序不重复词项容器」
+/// * 🚩与遍历顺序无关：集合相同⇒散列化结果相同
+fn hash_term_set<H: std::hash::Hasher>(set: &TermSetType, state: &mut H) {
+    hash_terms_unordered(set.iter(), state)
 }
 
 /// 实现/散列化逻辑
@@ -748,16 +764,17 @@ impl Hash for Term {
             ConjunctionParallel(set) => hash_term_set(set, state),
             // 陈述
             Inheritance(t1, t2)
-            | Similarity(t1, t2)
             | Implication(t1, t2)
-            | Equivalence(t1, t2)
             | ImplicationPredictive(t1, t2)
             | ImplicationConcurrent(t1, t2)
             | ImplicationRetrospective(t1, t2)
-            | EquivalencePredictive(t1, t2)
-            | EquivalenceConcurrent(t1, t2) => {
+            | EquivalencePredictive(t1, t2) => {
                 t1.hash(state);
                 t2.hash(state);
+            }
+            // 对称陈述：与判等一致，主谓词顺序无关
+            Similarity(t1, t2) | Equivalence(t1, t2) | EquivalenceConcurrent(t1, t2) => {
+                hash_terms_unordered([&**t1, &**t2].into_iter(), state)
             }
         }
     }
